@@ -31,6 +31,7 @@ type funcVC struct {
 	Items  []Item
 	Errs   []string
 	RetReach []string
+	RetPos   []string
 	Trusted bool
 	tr *fnTrans
 }
@@ -127,6 +128,34 @@ func buildCover(eng *Engine, solver string, fv *funcVC) string {
 	}
 	sb.WriteString("(assert " + or(fv.RetReach...) + ")\n(check-sat)\n")
 	return eng.finishQuery(sb.String())
+}
+
+// coverEach (diagnostic, -covers): for every return of every function, is it reachable under the assumptions?
+// A dead return is legitimate when the code really cannot get there; it is printed for inspection.
+func coverEach(eng *Engine, fvs []*funcVC, opt solveOpts) {
+	for _, fv := range fvs {
+		for i, r := range fv.RetReach {
+			var sb strings.Builder
+			sb.WriteString(eng.prelude("z3"))
+			for _, it := range fv.Items {
+				switch it.Kind {
+				case itDecl:
+					sb.WriteString(it.Text + "\n")
+				case itAssume:
+					sb.WriteString("(assert " + it.Text + ")\n")
+				}
+			}
+			sb.WriteString("(assert " + r + ")\n(check-sat)\n")
+			file := filepath.Join(opt.dir, fmt.Sprintf("covereach_%d.smt2", i))
+			os.WriteFile(file, []byte(eng.finishQuery(sb.String())), 0o644)
+			st, _, _ := runSolver("z3new", file, 5*time.Second)
+			pos := ""
+			if i < len(fv.RetPos) {
+				pos = fv.RetPos[i]
+			}
+			fmt.Printf("RETURN %s %s: %s\n", fv.Name, pos, map[string]string{"unsat": "DEAD (unreachable under the assumptions)", "sat": "reachable", "unknown": "not refuted", "timeout": "not refuted"}[st])
+		}
+	}
 }
 
 // coverAll runs the vacuity check for every function; returns the names of vacuous ones.
